@@ -33,16 +33,16 @@ pub fn describe(f: Fam, thorough: bool) -> &'static str {
         (Fam::Ebnf, true) => "EBNF(4,1,rules<=3) ∪ EBNF(3,2,rules<=3) ∪ EBNF(5,0,rules<=3)",
         (Fam::Pratt, false) => "PRATT(branches<=2, 2 operator tokens, atoms A and L e R)",
         (Fam::Pratt, true) => "PRATT(branches<=3, 2 operator tokens) ∪ PRATT(branches<=2, 3 operator tokens)",
-        (Fam::Node, false) => "NODE(1) on 8 base bodies",
-        (Fam::Node, true) => "NODE(2) on 8 base bodies",
+        (Fam::Node, false) => "NODE(1) on 9 base bodies",
+        (Fam::Node, true) => "NODE(2) on 9 base bodies",
         (Fam::Pred, false) => "PRED: EBNF(2,1,2) with 1 inserted ?1/?t/!1/#1",
         (Fam::Pred, true) => "PRED: EBNF(2,1,2) with <=2, EBNF(3,0,2) with 1 inserted ?1/?t/!1/#1",
         (Fam::Choice, false) => "CHOICE: one ordered choice in EBNF(3,0,2) with <=1 inserted ~, in two-rule EBNF(4,0,2), CHOICE-TAIL (choice with nullable last alternative at the end of a rule, 60 grammars)",
         (Fam::Choice, true) => "CHOICE: one ordered choice in EBNF(3,0,2) with <=1 inserted ~/&/!1 or <=2 inserted ~, in EBNF(4,0,2), CHOICE-TAIL",
         (Fam::Markers, false) => "MARKERS: two marker/creation pairs in every placement (crossing included) in `x: A B C A`",
         (Fam::Markers, true) => "MARKERS: two marker/creation pairs in every placement (crossing included) in `x: A B C A` and `x: A y C A`",
-        (Fam::Parts, false) => "PARTS: EBNF(3,1,3) with every non-empty subset of non-start rules as parts",
-        (Fam::Parts, true) => "PARTS: EBNF(4,1,3) with every non-empty subset of non-start rules as parts",
+        (Fam::Parts, false) => "PARTS: EBNF(3,1,3) with every non-empty subset of non-start rules as parts; SHARED-PART (a rule with a loop shared by start rule and part, 108 grammars)",
+        (Fam::Parts, true) => "PARTS: EBNF(4,1,3) with every non-empty subset of non-start rules as parts; SHARED-PART",
     }
 }
 
@@ -96,7 +96,11 @@ pub fn family_of(f: Fam, thorough: bool) -> Vec<Grammar> {
             v
         }
         (Fam::Markers, t) => markers_family(if t { &[0, 1] } else { &[0] }),
-        (Fam::Parts, t) => parts_family(&ebnf_bound(if t { 4 } else { 3 }, 1, 3, false)),
+        (Fam::Parts, t) => {
+            let mut v = parts_family(&ebnf_bound(if t { 4 } else { 3 }, 1, 3, false));
+            v.extend(shared_part_family());
+            v
+        }
     }
 }
 
